@@ -2,7 +2,8 @@ package main
 
 // C20: concurrent requests on the DEFAULT in-memory storage under the Go race detector.
 //
-//   suite c20      (ordinary binary) builds this very package with `go build -race` (CGO_ENABLED=1),
+//   suite c20      (ordinary binary) builds this very package with `go build -race` (CGO_ENABLED=1; the go
+//                  command reuses its cache, so an unchanged tree costs a fraction of a second),
 //                  runs `verifharness_race c20work` with GORACE="halt_on_error=0 log_path=...",
 //                  parses the race reports and reduces each to a signature:
 //                      unordered pair of (innermost github.com/luikyv/go-oidc frame function, read|write)
@@ -11,427 +12,21 @@ package main
 //                  are the pairs Model/Access.v predicts) and reports anything else - in particular any
 //                  race whose access is a map operation inside internal/storage - as a violation.  The
 //                  suite also writes a case file that asks the model whether each observed signature is in
-//                  its predicted set.
-//   suite c20work  (race binary) the workload of the property on 2..16 goroutines against ONE provider
-//                  with the default storage: interactive authorization with a two-step policy, code
-//                  redemption, refresh, introspection, userinfo, PAR, CIBA polling, DCR, private_key_jwt
-//                  with jwks_uri; goroutines also pick up each other's live sessions and tokens.
+//                  its predicted set, and checks the workload's coverage: every storage method of the three
+//                  default managers and every handler family of the property's quantifier must have run
+//                  while requests of other goroutines were in flight (a gap is a finding of its own).
+//   suite c20work  (race binary) the workload: suite_c20work.go.
 
 import (
-	"context"
-	"crypto/ecdsa"
 	"encoding/json"
 	"fmt"
-	"io"
-	mrand "math/rand"
-	"net/http"
-	"net/http/httptest"
-	"net/url"
 	"os"
 	"os/exec"
 	"path/filepath"
 	"regexp"
 	"sort"
 	"strings"
-	"sync"
-	"sync/atomic"
-	"time"
-
-	"github.com/go-jose/go-jose/v4"
-	"github.com/luikyv/go-oidc/pkg/goidc"
-	"github.com/luikyv/go-oidc/pkg/provider"
 )
-
-// ------------------------------------------------------------------ the workload (race binary)
-
-type c20W struct {
-	h    http.Handler
-	ckey *ecdsa.PrivateKey
-	jwks []byte
-	mu   sync.Mutex
-	pool map[string][]string // live artifacts shared between goroutines
-	reqs atomic.Int64
-	byK  sync.Map
-}
-
-func (w *c20W) put(kind, s string) {
-	if s == "" {
-		return
-	}
-	w.mu.Lock()
-	l := append(w.pool[kind], s)
-	if len(l) > 64 {
-		l = l[len(l)-64:]
-	}
-	w.pool[kind] = l
-	w.mu.Unlock()
-}
-func (w *c20W) take(r *mrand.Rand, kind string) string {
-	w.mu.Lock()
-	defer w.mu.Unlock()
-	l := w.pool[kind]
-	if len(l) == 0 {
-		return ""
-	}
-	return l[r.Intn(len(l))]
-}
-
-type c20rt struct{ w *c20W }
-
-func (t c20rt) RoundTrip(r *http.Request) (*http.Response, error) {
-	if strings.HasSuffix(r.URL.Path, "/jwks.json") {
-		return &http.Response{StatusCode: 200, Body: io.NopCloser(strings.NewReader(string(t.w.jwks))), Header: http.Header{}}, nil
-	}
-	return &http.Response{StatusCode: 204, Body: io.NopCloser(strings.NewReader("")), Header: http.Header{}}, nil
-}
-
-func newC20World() (*c20W, error) {
-	w := &c20W{pool: map[string][]string{}}
-	w.ckey = genKey()
-	pub := jose.JSONWebKey{Key: &w.ckey.PublicKey, KeyID: "ck1", Algorithm: "ES256", Use: "sig"}
-	w.jwks, _ = json.Marshal(jose.JSONWebKeySet{Keys: []jose.JSONWebKey{pub}})
-	srvKey := genKey()
-	srv := goidc.JSONWebKeySet{Keys: []goidc.JSONWebKey{{Key: srvKey, KeyID: "srv-es256", Algorithm: "ES256", Use: "sig"}}}
-	allGrants := []goidc.GrantType{goidc.GrantAuthorizationCode, goidc.GrantRefreshToken, goidc.GrantClientCredentials, goidc.GrantCIBA}
-	mk := func(id string, method goidc.ClientAuthnType) *goidc.Client {
-		c := &goidc.Client{ID: id}
-		c.TokenAuthnMethod = method
-		c.GrantTypes = allGrants
-		c.ResponseTypes = []goidc.ResponseType{goidc.ResponseTypeCode}
-		c.RedirectURIs = []string{c13Redirect}
-		c.ScopeIDs = "openid email offline_access"
-		c.CIBATokenDeliveryMode = goidc.CIBATokenDeliveryModePoll
-		return c
-	}
-	s1 := mk("s1", goidc.ClientAuthnSecretPost) // static
-	s1.HashedSecret = bcryptOf(c13Secret)
-	d1 := mk("d1", goidc.ClientAuthnSecretPost) // in the default client store
-	d1.HashedSecret = bcryptOf(c13Secret)
-	d2 := mk("d2", goidc.ClientAuthnPrivateKeyJWT) // private_key_jwt with jwks_uri, in the default client store
-	d2.TokenAuthnSigAlg = goidc.ES256
-	d2.PublicJWKSURI = "https://d2.example/jwks.json"
-	opts := []provider.ProviderOption{
-		// no With*Storage option: the provider's DEFAULT in-memory managers (internal/storage)
-		provider.WithScopes(goidc.ScopeOpenID, goidc.NewScope("email"), goidc.ScopeOfflineAccess),
-		provider.WithIDTokenSignatureAlgs(goidc.ES256),
-		provider.WithAuthorizationCodeGrant(), provider.WithClientCredentialsGrant(),
-		provider.WithRefreshTokenGrant(func(*goidc.Client, goidc.GrantInfo) bool { return true }, 600),
-		provider.WithRefreshTokenRotation(),
-		provider.WithCIBAGrant(
-			func(_ context.Context, s *goidc.AuthnSession) error { s.SetUserID("user1"); s.GrantScopes(s.Scopes); return nil },
-			func(_ context.Context, s *goidc.AuthnSession) error {
-				// read-only (the embedder's validation is its own business): some requests stay pending
-				if id := s.CIBAAuthID; id != "" && id[len(id)-1] < 'H' {
-					return goidc.NewError(goidc.ErrorCodeAuthPending, "pending")
-				}
-				return nil
-			},
-			goidc.CIBATokenDeliveryModePoll),
-		provider.WithPAR(60), provider.WithUnregisteredRedirectURIsForPAR(),
-		provider.WithPKCE(goidc.CodeChallengeMethodSHA256),
-		provider.WithTokenAuthnMethods(goidc.ClientAuthnSecretPost, goidc.ClientAuthnPrivateKeyJWT, goidc.ClientAuthnNone),
-		provider.WithPrivateKeyJWTSignatureAlgs(goidc.ES256),
-		provider.WithTokenIntrospection(func(*goidc.Client) bool { return true }, goidc.ClientAuthnSecretPost, goidc.ClientAuthnPrivateKeyJWT),
-		provider.WithDCR(nil, nil),
-		provider.WithStaticClient(s1),
-		provider.WithHTTPClientFunc(func(context.Context) *http.Client { return &http.Client{Transport: c20rt{w}} }),
-		provider.WithTokenOptions(func(gi goidc.GrantInfo, c *goidc.Client) goidc.TokenOptions {
-			return goidc.NewOpaqueTokenOptions(goidc.DefaultOpaqueTokenLength, 300)
-		}),
-		// two-step policy: the first invocation shows a page, the second one succeeds
-		provider.WithPolicy(goidc.NewPolicy("main",
-			func(*http.Request, *goidc.Client, *goidc.AuthnSession) bool { return true },
-			func(rw http.ResponseWriter, r *http.Request, s *goidc.AuthnSession) (goidc.AuthnStatus, error) {
-				if s.StoredParameter("step") == nil {
-					s.StoreParameter("step", 1)
-					rw.WriteHeader(200)
-					fmt.Fprintf(rw, "PAGE cb=%s", s.CallbackID)
-					return goidc.StatusInProgress, nil
-				}
-				s.SetUserID("user1")
-				s.GrantScopes(s.Scopes)
-				return goidc.StatusSuccess, nil
-			})),
-	}
-	p, err := provider.New(goidc.ProfileOpenID, issuer, func(context.Context) (goidc.JSONWebKeySet, error) { return srv, nil }, opts...)
-	if err != nil {
-		return nil, err
-	}
-	w.h = p.Handler()
-	// dynamic clients go into the provider's own default client store through the DCR endpoint's
-	// storage: the only handle on it is the HTTP API, so they are registered that way
-	for _, c := range []*goidc.Client{d1, d2} {
-		meta := map[string]any{"redirect_uris": c.RedirectURIs, "grant_types": c.GrantTypes, "response_types": c.ResponseTypes,
-			"scope": c.ScopeIDs, "token_endpoint_auth_method": c.TokenAuthnMethod, "backchannel_token_delivery_mode": "poll"}
-		if c.PublicJWKSURI != "" {
-			meta["jwks_uri"] = c.PublicJWKSURI
-			meta["token_endpoint_auth_signing_alg"] = "ES256"
-		}
-		b, _ := json.Marshal(meta)
-		rec := w.call("POST", "/register", string(b), "application/json", nil)
-		var m map[string]any
-		_ = json.Unmarshal(rec.Body.Bytes(), &m)
-		id, _ := m["client_id"].(string)
-		sec, _ := m["client_secret"].(string)
-		tok, _ := m["registration_access_token"].(string)
-		if id == "" {
-			return nil, fmt.Errorf("c20: DCR seeding failed: %s", rec.Body.String())
-		}
-		kind := "dyn_secret"
-		if c.PublicJWKSURI != "" {
-			kind = "dyn_pkjwt"
-		}
-		w.put(kind, id+"|"+sec+"|"+tok)
-	}
-	return w, nil
-}
-
-func (w *c20W) call(method, target, body, ct string, hdr map[string]string) *httptest.ResponseRecorder {
-	var rd io.Reader
-	if body != "" {
-		rd = strings.NewReader(body)
-	}
-	req := httptest.NewRequest(method, target, rd)
-	if ct != "" {
-		req.Header.Set("Content-Type", ct)
-	}
-	for k, v := range hdr {
-		req.Header.Set(k, v)
-	}
-	rec := httptest.NewRecorder()
-	w.h.ServeHTTP(rec, req)
-	w.reqs.Add(1)
-	return rec
-}
-
-func (w *c20W) form(path string, v url.Values) map[string]any {
-	rec := w.call("POST", path, v.Encode(), "application/x-www-form-urlencoded", nil)
-	var m map[string]any
-	_ = json.Unmarshal(rec.Body.Bytes(), &m)
-	return m
-}
-
-type c20client struct{ id, secret, regTok string; pkjwt bool }
-
-func (w *c20W) pickClient(r *mrand.Rand) c20client {
-	switch k := r.Intn(20); {
-	case k < 9:
-		return c20client{id: "s1", secret: c13Secret}
-	case k < 11: // secrets of DCR clients are hashed with the default bcrypt cost: slow under -race
-		p := strings.Split(w.take(r, "dyn_secret"), "|")
-		return c20client{id: p[0], secret: p[1], regTok: p[2]}
-	}
-	p := strings.Split(w.take(r, "dyn_pkjwt"), "|")
-	return c20client{id: p[0], regTok: p[2], pkjwt: true}
-}
-
-func (w *c20W) authn(r *mrand.Rand, c c20client, v url.Values) url.Values {
-	v.Set("client_id", c.id)
-	if c.pkjwt {
-		v.Set("client_assertion_type", "urn:ietf:params:oauth:client-assertion-type:jwt-bearer")
-		v.Set("client_assertion", c13Sign(w.ckey, "ck1", "JWT", map[string]any{"iss": c.id, "sub": c.id, "aud": issuer,
-			"jti": fmt.Sprint(r.Int63()), "exp": time.Now().Unix() + 60, "iat": time.Now().Unix()}, nil))
-	} else {
-		v.Set("client_secret", c.secret)
-	}
-	return v
-}
-
-func str(m map[string]any, k string) string { s, _ := m[k].(string); return s }
-
-func (w *c20W) count(k string) {
-	v, _ := w.byK.LoadOrStore(k, new(atomic.Int64))
-	v.(*atomic.Int64).Add(1)
-}
-
-// one unit of work of a goroutine
-func (w *c20W) flow(r *mrand.Rand) {
-	verifier := strings.Repeat("v", 50)
-	switch k := r.Intn(100); {
-	case k < 30: // interactive authorization (two policy steps), optionally through PAR, then the code
-		c := w.pickClient(r)
-		q := url.Values{"client_id": {c.id}, "response_type": {"code"}, "scope": {"openid email offline_access"}, "redirect_uri": {c13Redirect},
-			"state": {"s"}, "nonce": {"n"}, "code_challenge": {thumb(verifier)}, "code_challenge_method": {"S256"}}
-		if r.Intn(3) == 0 {
-			if r.Intn(2) == 0 {
-				q.Set("redirect_uri", fmt.Sprintf("https://unregistered%d.example/cb", r.Intn(1000)))
-			}
-			m := w.form("/par", w.authn(r, c, cloneValues(q)))
-			if ru := str(m, "request_uri"); ru != "" {
-				w.put("request_uri", ru+"|"+c.id)
-				q = url.Values{"client_id": {c.id}, "request_uri": {ru}}
-			}
-			w.count("par")
-		}
-		rec := w.call("GET", "/authorize?"+q.Encode(), "", "", nil)
-		w.count("authorize")
-		body := rec.Body.String()
-		if !strings.HasPrefix(body, "PAGE cb=") {
-			return
-		}
-		cb := strings.TrimPrefix(body, "PAGE cb=")
-		w.put("callback", cb)
-		rec = w.call("POST", "/authorize/"+cb, "", "application/x-www-form-urlencoded", nil)
-		w.count("callback")
-		code := locParam(rec.Header().Get("Location"), "code")
-		if code == "" {
-			return
-		}
-		w.put("code", code+"|"+c.id)
-		w.redeem(r, c, code)
-	case k < 38: // somebody else's callback / code / request_uri (same-object concurrency)
-		switch r.Intn(3) {
-		case 0:
-			if cb := w.take(r, "callback"); cb != "" {
-				w.call("POST", "/authorize/"+cb, "", "application/x-www-form-urlencoded", nil)
-				w.count("callback-shared")
-			}
-		case 1:
-			if p := strings.Split(w.take(r, "code"), "|"); len(p) == 2 {
-				w.redeem(r, w.clientByID(r, p[1]), p[0])
-				w.count("code-shared")
-			}
-		case 2:
-			if p := strings.Split(w.take(r, "request_uri"), "|"); len(p) == 2 {
-				w.call("GET", "/authorize?"+url.Values{"client_id": {p[1]}, "request_uri": {p[0]}}.Encode(), "", "", nil)
-				w.count("request_uri-shared")
-			}
-		}
-	case k < 55: // refresh (own or shared token)
-		if p := strings.Split(w.take(r, "refresh_token"), "|"); len(p) == 2 {
-			c := w.clientByID(r, p[1])
-			m := w.form("/token", w.authn(r, c, url.Values{"grant_type": {"refresh_token"}, "refresh_token": {p[0]}}))
-			w.count("refresh")
-			w.learn(m, c)
-		}
-	case k < 68: // introspection
-		c := w.pickClient(r)
-		tok := w.take(r, pick(r, []string{"access_token", "refresh_token"}))
-		tok = strings.Split(tok, "|")[0]
-		w.form("/introspect", w.authn(r, c, url.Values{"token": {tok}}))
-		w.count("introspect")
-	case k < 78: // userinfo
-		tok := strings.Split(w.take(r, "access_token"), "|")[0]
-		w.call("GET", "/userinfo", "", "", map[string]string{"Authorization": "Bearer " + tok})
-		w.count("userinfo")
-	case k < 86: // CIBA: request, poll (pending), poll (tokens)
-		c := w.pickClient(r)
-		m := w.form("/bc-authorize", w.authn(r, c, url.Values{"scope": {"openid email"}, "login_hint": {"user1"}}))
-		w.count("bc-authorize")
-		id := str(m, "auth_req_id")
-		if id == "" {
-			return
-		}
-		w.put("auth_req_id", id+"|"+c.id)
-		for i := 0; i < 2; i++ {
-			m = w.form("/token", w.authn(r, c, url.Values{"grant_type": {"urn:openid:params:grant-type:ciba"}, "auth_req_id": {id}}))
-			w.count("ciba-poll")
-			w.learn(m, c)
-		}
-	case k < 89: // somebody else's auth_req_id
-		if p := strings.Split(w.take(r, "auth_req_id"), "|"); len(p) == 2 {
-			c := w.clientByID(r, p[1])
-			w.form("/token", w.authn(r, c, url.Values{"grant_type": {"urn:openid:params:grant-type:ciba"}, "auth_req_id": {p[0]}}))
-			w.count("ciba-poll-shared")
-		}
-	case k < 95: // client_credentials (private_key_jwt with jwks_uri among the clients)
-		c := w.pickClient(r)
-		m := w.form("/token", w.authn(r, c, url.Values{"grant_type": {"client_credentials"}, "scope": {"email"}}))
-		w.count("client_credentials")
-		w.learn(m, c)
-	default: // DCR: create, read, update, (sometimes) delete
-		meta := `{"redirect_uris":["` + c13Redirect + `"],"grant_types":["authorization_code","refresh_token","client_credentials","urn:openid:params:grant-type:ciba"],"response_types":["code"],"scope":"openid email offline_access","token_endpoint_auth_method":"client_secret_post","backchannel_token_delivery_mode":"poll"}`
-		rec := w.call("POST", "/register", meta, "application/json", nil)
-		w.count("dcr")
-		var m map[string]any
-		_ = json.Unmarshal(rec.Body.Bytes(), &m)
-		id, sec, tok := str(m, "client_id"), str(m, "client_secret"), str(m, "registration_access_token")
-		if id == "" {
-			return
-		}
-		h := map[string]string{"Authorization": "Bearer " + tok}
-		w.call("GET", "/register/"+id, "", "", h)
-		rec = w.call("PUT", "/register/"+id, meta, "application/json", h)
-		_ = json.Unmarshal(rec.Body.Bytes(), &m)
-		if s := str(m, "client_secret"); s != "" {
-			sec = s
-		}
-		if r.Intn(3) == 0 {
-			w.call("DELETE", "/register/"+id, "", "", h)
-		} else {
-			w.put("dyn_secret", id+"|"+sec+"|"+tok)
-		}
-	}
-}
-
-func cloneValues(v url.Values) url.Values {
-	o := url.Values{}
-	for k, l := range v {
-		o[k] = append([]string(nil), l...)
-	}
-	return o
-}
-
-func (w *c20W) clientByID(r *mrand.Rand, id string) c20client {
-	if id == "s1" {
-		return c20client{id: "s1", secret: c13Secret}
-	}
-	w.mu.Lock()
-	defer w.mu.Unlock()
-	for _, kind := range []string{"dyn_secret", "dyn_pkjwt"} {
-		for _, e := range w.pool[kind] {
-			p := strings.Split(e, "|")
-			if p[0] == id {
-				return c20client{id: id, secret: p[1], regTok: p[2], pkjwt: kind == "dyn_pkjwt"}
-			}
-		}
-	}
-	return c20client{id: id, secret: c13Secret}
-}
-
-func (w *c20W) learn(m map[string]any, c c20client) {
-	if at := str(m, "access_token"); at != "" {
-		w.put("access_token", at+"|"+c.id)
-	}
-	if rt := str(m, "refresh_token"); rt != "" {
-		w.put("refresh_token", rt+"|"+c.id)
-	}
-}
-
-func (w *c20W) redeem(r *mrand.Rand, c c20client, code string) {
-	m := w.form("/token", w.authn(r, c, url.Values{"grant_type": {"authorization_code"}, "code": {code}, "redirect_uri": {c13Redirect},
-		"code_verifier": {strings.Repeat("v", 50)}}))
-	w.count("code")
-	w.learn(m, c)
-}
-
-func c20Work(ctx *RunCtx) {
-	w, err := newC20World()
-	if err != nil {
-		panic(err)
-	}
-	total := time.Duration(ctx.N(20, 240)) * time.Second
-	levels := []int{2, 4, 8, 16}
-	for li, g := range levels {
-		deadline := time.Now().Add(total / time.Duration(len(levels)))
-		var wg sync.WaitGroup
-		for i := 0; i < g; i++ {
-			wg.Add(1)
-			seed := ctx.Seed*1000 + int64(li*100+i)
-			go func() {
-				defer wg.Done()
-				r := mrand.New(mrand.NewSource(seed))
-				for time.Now().Before(deadline) {
-					w.flow(r)
-				}
-			}()
-		}
-		wg.Wait()
-	}
-	ctx.Meta.Cases = int(w.reqs.Load())
-	w.byK.Range(func(k, v any) bool { ctx.Meta.Dist[k.(string)] = int(v.(*atomic.Int64).Load()); return true })
-	ctx.Meta.Rule = "requests served"
-}
 
 // ------------------------------------------------------------------ the driver (ordinary binary)
 
@@ -440,11 +35,14 @@ type raceAccess struct {
 	Func  string // innermost go-oidc frame
 	IsMap bool   // the access itself is a runtime map operation
 	Top   string // innermost frame of all
+	Lost  bool   // the detector could not restore this side's stack
 }
 
 var raceHead = regexp.MustCompile(`^(Previous )?(atomic )?([Rr]ead|[Ww]rite) at 0x[0-9a-f]+ by `)
 
-func parseRaceReports(txt string) (sigs map[string]string) {
+// parseRaceReports returns signature -> first report, and the number of reports one side of which has no stack
+// and whose other side is a read (they cannot be named; history_size=7 keeps them rare)
+func parseRaceReports(txt string) (sigs map[string]string, unnamed int) {
 	sigs = map[string]string{}
 	for _, block := range strings.Split(txt, "==================") {
 		if !strings.Contains(block, "WARNING: DATA RACE") {
@@ -464,6 +62,10 @@ func parseRaceReports(txt string) (sigs map[string]string) {
 					continue
 				}
 				fn := strings.TrimSpace(l)
+				if strings.HasPrefix(fn, "[failed to restore the stack]") {
+					a.Lost = true
+					continue
+				}
 				if k := strings.LastIndex(fn, "("); k > 0 {
 					fn = fn[:k]
 				}
@@ -475,7 +77,7 @@ func parseRaceReports(txt string) (sigs map[string]string) {
 					a.Func = strings.TrimPrefix(fn, "github.com/luikyv/go-oidc/")
 				}
 			}
-			if a.Func == "" {
+			if a.Func == "" && !a.Lost {
 				a.Func = "outside-go-oidc:" + a.Top
 			}
 			accs = append(accs, a)
@@ -484,11 +86,26 @@ func parseRaceReports(txt string) (sigs map[string]string) {
 			continue
 		}
 		el := func(a raceAccess) string {
+			if a.Lost {
+				return "stack-not-restored:" + a.Kind
+			}
 			s := coarseSite(a.Func, a.Kind) + ":" + a.Kind
 			if a.IsMap {
 				s += ":map"
 			}
 			return s
+		}
+		if accs[0].Lost || accs[1].Lost {
+			o := accs[0]
+			if o.Lost {
+				o = accs[1]
+			}
+			// named by the side that has a stack when that side is a write (the finding is named by write sites
+			// anyway) or a map operation; otherwise nothing can be said
+			if o.Lost || (o.Kind != "write" && !o.IsMap) {
+				unnamed++
+				continue
+			}
 		}
 		pair := []string{el(accs[0]), el(accs[1])}
 		sort.Strings(pair)
@@ -497,7 +114,7 @@ func parseRaceReports(txt string) (sigs map[string]string) {
 			sigs[sig] = strings.TrimSpace(block)
 		}
 	}
-	return sigs
+	return sigs, unnamed
 }
 
 // coarseSite keeps the exact function for writers and for the storage's own methods (finite sets
@@ -519,9 +136,56 @@ func coarseSite(fn, kind string) string {
 	return fn
 }
 
+// the handler families of the property's quantifier: each must have been served (handler/<name> of the workload's
+// log) while requests of other goroutines were in flight, and the listed outcomes must have occurred
+var c20Families = []string{
+	"authorize", "callback", "callback-shared", // interactive authorization, multi-step policies, shared sessions
+	"par", "par-unregistered-redirect", "request_uri-shared", "authorize-foreign-request_uri",
+	"code", "code-replay", // redemption AND replay
+	"refresh-rotation", "refresh-no-rotation",
+	"introspect", "userinfo", "revoke",
+	"bc-authorize-poll", "bc-authorize-ping", "bc-authorize-push", "ciba-poll", "ciba-poll-shared", "ciba-ping", "ciba-push-success", "ciba-push-failure",
+	"client_credentials",
+	"dcr-create", "dcr-read", "dcr-update", "dcr-delete",
+}
+var c20Outcomes = []string{
+	"authorize:code:steps=1", "authorize:code:steps=2", "authorize:code:steps=3", "authorize:redirected-access_denied", "authorize:in-progress",
+	"callback-shared:in-progress", "request_uri-shared:in-progress",
+	"code:ok", "code-replay:invalid_grant", "par:ok", "par-unregistered-redirect:ok",
+	"refresh-rotation:ok", "refresh-no-rotation:ok", "introspect:active", "introspect:inactive", "userinfo:200", "revoke:200",
+	"ciba-poll:ok", "ciba-poll:authorization_pending", "ciba-poll:access_denied", "ciba-push-success:ok", "ciba-push-failure:ok", "ciba-ping:ok",
+	"client_credentials:ok", "client-with-jwks_uri", "dcr-read:200", "dcr-delete:204",
+	"dcr-create:ok:uris=1", "dcr-create:ok:uris=2", "dcr-create:ok:uris=3", "dcr-create:ok:uris=4", "dcr-create:ok:uris=5", "dcr-create:ok:uris=6", "dcr-create:ok:uris=7", "dcr-create:ok:uris=8",
+}
+
+// c20Gaps lists what the workload failed to cover
+func c20Gaps(dist map[string]int) (gaps []string) {
+	for _, m := range c20StorageMethods() {
+		if dist["method-concurrent/"+m] == 0 {
+			gaps = append(gaps, "storage-method:"+m)
+		}
+	}
+	for _, f := range c20Families {
+		if dist["handler-concurrent/"+f] == 0 {
+			gaps = append(gaps, "handler:"+f)
+		}
+	}
+	for _, o := range c20Outcomes {
+		if dist["outcome/"+o] == 0 {
+			gaps = append(gaps, "outcome:"+o)
+		}
+	}
+	return gaps
+}
+
+var c20Fatal = regexp.MustCompile(`fatal error: (concurrent map[a-z ]+)`)
+var c20Panic = regexp.MustCompile(`(?m)^panic: (.*)$`)
+
 func c20Drive(ctx *RunCtx) {
 	env := append(os.Environ(), "CGO_ENABLED=1", "GOFLAGS=-mod=mod", "GOPROXY=off", "GOSUMDB=off", "GOTOOLCHAIN=local")
-	build := exec.Command("go", "build", "-race", "-o", "verifharness_race", ".")
+	// bcrypt (registration access tokens and secrets of dynamic clients, default cost) is twelve times slower when
+	// blowfish is instrumented: that package works on private state only and is built without the detector
+	build := exec.Command("go", "build", "-race", "-gcflags=golang.org/x/crypto/blowfish=-race=false", "-o", "verifharness_race", ".")
 	build.Env = env
 	if out, err := build.CombinedOutput(); err != nil {
 		panic(fmt.Sprintf("c20: go build -race failed: %v\n%s", err, out))
@@ -530,18 +194,66 @@ func c20Drive(ctx *RunCtx) {
 	workOut := filepath.Join(abs, "work")
 	_ = os.MkdirAll(workOut, 0o755)
 	logBase := filepath.Join(abs, "race")
-	run := exec.Command("./verifharness_race", "c20work", "-tier", ctx.Tier, "-seed", fmt.Sprint(ctx.Seed), "-out", workOut)
-	run.Env = append(env, "GORACE=halt_on_error=0 log_path="+logBase)
-	out, err := run.CombinedOutput()
-	if err != nil {
-		// the race runtime exits with 66 when races were reported: not an error of the workload
-		if ee, ok := err.(*exec.ExitError); !ok || ee.ExitCode() != 66 {
-			panic(fmt.Sprintf("c20: workload failed: %v\n%s", err, truncate(string(out), 3000)))
-		}
-	}
+	workload := "verifharness_race c20work -tier " + ctx.Tier + " -seed " + fmt.Sprint(ctx.Seed)
+	crashed := ""
 	var wm Meta
-	if b, err := os.ReadFile(filepath.Join(workOut, "meta.json")); err == nil {
-		_ = json.Unmarshal(b, &wm)
+	// The Go runtime aborts on some unsynchronised map accesses ("fatal error: concurrent map ..."): that is a
+	// finding, not a failure of the harness.  On a map of internal/storage it is a violation like any race there;
+	// elsewhere (the Storage map of a session two callbacks write through StoreParameter) it is named by the writing
+	// function like the race reports, and the workload is run once more (next seed) so that the rest is explored.
+	for attempt := 0; attempt < 2; attempt++ {
+		seed := ctx.Seed + int64(1000*attempt)
+		run := exec.Command("./verifharness_race", "c20work", "-tier", ctx.Tier, "-seed", fmt.Sprint(seed), "-out", workOut)
+		run.Env = append(env, "GORACE=halt_on_error=0 history_size=7 log_path="+logBase)
+		out, err := run.CombinedOutput()
+		if ee, ok := err.(*exec.ExitError); err == nil || (ok && ee.ExitCode() == 66) {
+			// (the race runtime exits with 66 when races were reported: not an error of the workload)
+			if b, err := os.ReadFile(filepath.Join(workOut, "meta.json")); err == nil {
+				_ = json.Unmarshal(b, &wm)
+			}
+			crashed = ""
+			break
+		}
+		fatal := true
+		m := c20Fatal.FindStringSubmatch(string(out))
+		if m == nil {
+			// a panic inside a handler (served on the goroutine's own stack, so it takes the process down): with an
+			// unlocked map write a concurrent scan can meet a half-written bucket and dereference nil
+			fatal = false
+			if m = c20Panic.FindStringSubmatch(string(out)); m == nil {
+				panic(fmt.Sprintf("c20: workload failed: %v\n%s", err, truncate(string(out), 3000)))
+			}
+		}
+		crashed = m[1]
+		fn := ""
+		for _, l := range strings.Split(string(out), "\n") {
+			if l = strings.TrimSpace(l); strings.HasPrefix(l, "github.com/luikyv/go-oidc/") && !strings.Contains(l, "/verifharness") {
+				fn = strings.TrimPrefix(l, "github.com/luikyv/go-oidc/")
+				if k := strings.LastIndex(fn, "("); k > 0 {
+					fn = fn[:k]
+				}
+				break
+			}
+		}
+		if !fatal {
+			if fn == "" {
+				panic(fmt.Sprintf("c20: workload failed: %v\n%s", err, truncate(string(out), 3000)))
+			}
+			ctx.Meta.Findings = append(ctx.Meta.Findings, Finding{Property: "C20", Signature: "workload-crash:" + fn,
+				What:   "a request of the concurrent workload panicked in " + fn + ": " + crashed,
+				Replay: map[string]any{"output": truncate(string(out), 6000), "workload": "verifharness_race c20work -tier " + ctx.Tier + " -seed " + fmt.Sprint(seed)}})
+			break
+		}
+		sig := "unsynchronised-write:" + fn
+		if fn == "" || strings.HasPrefix(fn, "internal/storage.") {
+			sig = "runtime-abort:" + crashed + ":" + fn
+		}
+		ctx.Meta.Findings = append(ctx.Meta.Findings, Finding{Property: "C20", Signature: sig,
+			What:   "the Go runtime aborted the workload: fatal error: " + crashed + " in " + fn,
+			Replay: map[string]any{"output": truncate(string(out), 6000), "workload": "verifharness_race c20work -tier " + ctx.Tier + " -seed " + fmt.Sprint(seed)}})
+		if strings.HasPrefix(sig, "runtime-abort:") {
+			break
+		}
 	}
 	var txt strings.Builder
 	logs, _ := filepath.Glob(logBase + ".*")
@@ -549,7 +261,7 @@ func c20Drive(ctx *RunCtx) {
 		b, _ := os.ReadFile(l)
 		txt.Write(b)
 	}
-	sigs := parseRaceReports(txt.String())
+	sigs, unnamed := parseRaceReports(txt.String())
 	var keys []string
 	for k := range sigs {
 		keys = append(keys, k)
@@ -562,39 +274,57 @@ func c20Drive(ctx *RunCtx) {
 	for _, k := range keys {
 		if strings.Contains(k, ":map") && strings.Contains(k, "internal/storage") {
 			ctx.Meta.Findings = append(ctx.Meta.Findings, Finding{Property: "C20", Signature: k, What: "data race on a storage map: " + k,
-				Replay: map[string]any{"race_report": truncate(sigs[k], 6000), "workload": "verifharness_race c20work -tier " + ctx.Tier + " -seed " + fmt.Sprint(ctx.Seed)}})
+				Replay: map[string]any{"race_report": truncate(sigs[k], 6000), "workload": workload}})
 			continue
 		}
 		writers := 0
 		for _, part := range strings.Split(k, " | ") {
-			if strings.HasSuffix(part, ":write") {
+			// "<site>:write" or, when the write is a map operation outside internal/storage (the Storage map of
+			// a session written by StoreParameter, say), "<site>:write:map": named by the site all the same
+			site, isWrite := strings.CutSuffix(strings.TrimSuffix(part, ":map"), ":write")
+			if isWrite && !strings.HasPrefix(part, "stack-not-restored:") {
 				writers++
-				sig := "unsynchronised-write:" + strings.TrimSuffix(part, ":write")
+				sig := "unsynchronised-write:" + site
 				if emitted[sig] {
 					continue
 				}
 				emitted[sig] = true
 				ctx.Meta.Findings = append(ctx.Meta.Findings, Finding{Property: "C20", Signature: sig,
-					What: "data race: unsynchronised write in " + strings.TrimSuffix(part, ":write") + " (observed pair: " + k + ")",
-					Replay: map[string]any{"race_report": truncate(sigs[k], 6000), "workload": "verifharness_race c20work -tier " + ctx.Tier + " -seed " + fmt.Sprint(ctx.Seed)}})
+					What:   "data race: unsynchronised write in " + site + " (observed pair: " + k + ")",
+					Replay: map[string]any{"race_report": truncate(sigs[k], 6000), "workload": workload}})
 			}
 		}
 		if writers == 0 {
-			ctx.Meta.Findings = append(ctx.Meta.Findings, Finding{Property: "C20", Signature: k, What: "data race report without a write side: " + k,
+			ctx.Meta.Findings = append(ctx.Meta.Findings, Finding{Property: "C20", Signature: k, What: "data race report without a named write side: " + k,
 				Replay: map[string]any{"race_report": truncate(sigs[k], 6000)}})
+		}
+	}
+	// the workload must have covered the property's quantifier
+	var gaps []string
+	if crashed == "" {
+		gaps = c20Gaps(wm.Dist)
+		for _, gp := range gaps {
+			ctx.Meta.Findings = append(ctx.Meta.Findings, Finding{Property: "C20", Signature: "workload-coverage:" + gp,
+				What:   "the C20 workload did not exercise " + gp + " concurrently with requests of other goroutines: the run says nothing about it",
+				Replay: map[string]any{"workload": workload, "input_distribution": wm.Dist}})
 		}
 	}
 	// ask the model whether each observed signature is in its predicted set
 	var b strings.Builder
 	b.WriteString("From Verif Require Import Base Access.\nLocal Open Scope N_scope.\nDefinition observed : list (string * string) := [\n")
 	var jcases []map[string]any
-	for i, k := range keys {
+	n := 0
+	for _, k := range keys {
+		if strings.Contains(k, "stack-not-restored:") {
+			continue
+		}
 		p := strings.Split(k, " | ")
-		if i > 0 {
+		if n > 0 {
 			b.WriteString(";\n")
 		}
 		fmt.Fprintf(&b, "  (%s, %s)", cS(p[0]), cS(p[1]))
-		jcases = append(jcases, map[string]any{"Index": i, "Note": "race signature " + k, "Spec": k, "Obs": truncate(sigs[k], 2000)})
+		jcases = append(jcases, map[string]any{"Index": n, "Note": "race signature " + k, "Spec": k, "Obs": truncate(sigs[k], 2000)})
+		n++
 	}
 	b.WriteString("].\nDefinition corr := Eval vm_compute in map (fun s => if predicted_signature (fst s) (snd s) then 0 else 1) observed.\nPrint corr.\n")
 	_ = os.WriteFile(filepath.Join(ctx.Out, "cases_000.v"), []byte(b.String()), 0o644)
@@ -606,8 +336,9 @@ func c20Drive(ctx *RunCtx) {
 	for k, v := range wm.Dist {
 		ctx.Meta.Dist[k] = v
 	}
-	ctx.Meta.Extra = map[string]any{"race_signatures": keys, "race_logs": len(logs)}
-	ctx.Meta.Rule = "requests served concurrently (2, 4, 8, 16 goroutines in turn) by one provider with the default in-memory storage under the race detector; distinct = distinct race signatures (unordered pair of innermost go-oidc frame function and access kind)"
+	ctx.Meta.Extra = map[string]any{"race_signatures": keys, "race_logs": len(logs), "reports_without_a_nameable_side": unnamed,
+		"storage_methods": c20StorageMethods(), "handler_families": c20Families, "coverage_gaps": gaps, "runtime_abort": crashed}
+	ctx.Meta.Rule = "requests served concurrently (2, 4, 8, 16, 16 goroutines in turn, alternately by a provider with and one without refresh-token rotation, each with its default in-memory storage) under the race detector; clients shared between goroutines, private to one, and registered/updated/deleted meanwhile; input_distribution: method/<M> and handler/<F> = invocations of every storage method of the three default managers and of every handler family, *-concurrent/ = those made while a request of another goroutine (for methods: one using the same manager) was in flight, outcome/ = what the requests answered; distinct = distinct race signatures (unordered pair of innermost go-oidc frame function and access kind)"
 	for i, k := range keys {
 		if i < 3 {
 			ctx.Meta.Samples = append(ctx.Meta.Samples, map[string]any{"signature": k, "report": truncate(sigs[k], 1500)})
